@@ -43,20 +43,24 @@ func canTouch(prev, next string) bool {
 // Placeholders inside a token text, expanded by the renderer: a token such as a cast, 'yield from' or a
 // heredoc opener is ONE token for the scanner but admits blanks inside; which blanks is a layout choice.
 const (
-	OptHB = "\x00" // optional horizontal blanks ([ \t]*): nothing in the canonical and minimal layouts
-	ReqWS = "\x01" // mandatory whitespace incl. line terminators: one blank in the canonical and minimal layouts
+	OptHB   = "\x00" // optional horizontal blanks ([ \t]*): nothing in the canonical and minimal layouts
+	ReqWS   = "\x01" // mandatory whitespace incl. line terminators: one blank in the canonical and minimal layouts
+	OptWSNL = "\x02" // optional whitespace incl. line terminators (between ';' and '?>'): one blank in the canonical layout, nothing in the minimal one
 )
 
 // PlainTok renders a token text with its placeholders in canonical form.
 func PlainTok(s string) string {
-	return strings.ReplaceAll(strings.ReplaceAll(s, OptHB, ""), ReqWS, " ")
+	return strings.ReplaceAll(strings.ReplaceAll(strings.ReplaceAll(s, OptHB, ""), ReqWS, " "), OptWSNL, " ")
 }
 
 func (l *layouter) expand(s string) string {
-	if !strings.ContainsAny(s, OptHB+ReqWS) {
+	if !strings.ContainsAny(s, OptHB+ReqWS+OptWSNL) {
 		return s
 	}
-	if l.mode == LayCanon || l.mode == LayMinimal {
+	if l.mode == LayMinimal {
+		return strings.ReplaceAll(PlainTok(strings.ReplaceAll(s, OptWSNL, "\x03")), "\x03", "")
+	}
+	if l.mode == LayCanon {
 		return PlainTok(s)
 	}
 	var sb strings.Builder
@@ -66,6 +70,14 @@ func (l *layouter) expand(s string) string {
 			b := l.r.Pick("", "", " ", "\t", "  ", "\t ", " \t  ")
 			sb.WriteString(b)
 			l.stat("inside-token-optional", fmt.Sprintf("%q", b))
+		case 2:
+			nl := l.nl()
+			if nl == "\r" {
+				nl = "\r\n"
+			}
+			b := l.r.Pick("", " ", "\t", "  ", nl, " "+nl+"\t", nl+nl, "\t\t", "\t ", " \t", nl+"\t", "\t"+nl)
+			sb.WriteString(b)
+			l.stat("inside-token-optional-ws-nl", fmt.Sprintf("%q", b))
 		case 1:
 			nl := l.nl()
 			if nl == "\r" {
